@@ -194,6 +194,56 @@ def check_sinks(out, facts):
         out.ob('R07.3', key, ok, 'sink does not append exactly the bytes it is given: ' + s[:200], f['loc'], sample={'term': s[:200]})
 
 
+def check_aux_entry_points(out, facts):
+    """R07.5: the convenience entry points built on using_encoded — Joiner::and (append the encoding to self) and
+    KeyedVec::to_keyed_vec (key ++ encoding) — pass on the whole encoding on every path"""
+    cfg = facts.cfg
+    want = {'joiner::Joiner': 'and', 'keyedvec::KeyedVec': 'to_keyed_vec'}
+    seen = set()
+    for f in facts.fns:
+        tr = f.get('trait')
+        if not f.get('thir') or f['kind'] != 'AssocFn' or tr not in want or f.get('method') != want[tr] or f['ctx'] != 'trait_impl':
+            continue
+        seen.add(tr)
+        ev = sym.Evaluator(facts)
+        ctx = sym.Ctx(ev, f)
+        for p in f['params']:
+            ctx.env[p['v']] = ('param', p['name'], p.get('ty'))
+        v, t = ev.ev(f['thir'], ctx)
+        key = '%s [%s]' % (fkey(f), cfg)
+        if sym.has_opaque(t):
+            out.fail('R07.5', key, 'unrecognised construct: ' + sym.has_opaque(t)[0][1], sym.has_opaque(t)[0][2])
+            continue
+        why = []
+        value_param = f['params'][1]['name'] if tr == 'joiner::Joiner' else f['params'][0]['name']
+        for p in paths(t):
+            if p and p[-1][0] in ('PANIC', 'ERR'):
+                why.append('a path ends in %s' % p[-1][0])
+                continue
+            app = [e for e in p if e[0] == 'MUTCALL' and e[1] in ('extend', 'extend_from_slice', 'write', 'append')]
+            enc = [e for e in app if any(isinstance(strip(a), tuple) and strip(a)[0] == 'cbarg' and sym.vstr(strip(a)[2]).lstrip('&*') == value_param for a in e[3][1:])]
+            if len(enc) != 1:
+                why.append('a path appends the encoding of `%s` %d time(s)' % (value_param, len(enc)))
+                continue
+            dst = strip(enc[0][3][0])
+            if tr == 'joiner::Joiner':
+                if sym.vstr(dst) != 'self' or sym.vstr(v) != 'self':
+                    why.append('the encoding is not appended to self / self is not returned')
+                if len(app) != 1:
+                    why.append('something else is appended as well')
+            else:
+                # the destination starts as a copy of the key and is the result
+                init = strip(dst[3]) if dst[0] == 'mutvar' else None
+                if not (isinstance(init, tuple) and init[0] == 'call' and init[1] in ('to_vec', 'to_owned', 'from', 'into') and 'prepend_key' in sym.vstr(init)):
+                    why.append('the buffer the encoding is appended to does not start as a copy of the key')
+                if dst[0] != 'mutvar' or ('mut ' + dst[2]) not in sym.vstr(v):
+                    why.append('the buffer is not the result')
+                if len(app) != 1:
+                    why.append('something else is appended as well')
+        out.ob('R07.5', key, not why, '; '.join(sorted(set(why))), f['loc'], sample={'term': sym.tstr(t)[:200], 'value': sym.vstr(v)[:80]})
+    out.floor('R07.5', 'auxiliary entry points [%s]' % cfg, len(seen), 2)
+
+
 def _iterates_all(unk):
     """the arm is exactly one loop that encodes every element of `slice` once, front to back: a `for` over
     slice.iter() / slice, or an index loop over 0..slice.len() (while-counter spelling included)"""
@@ -251,6 +301,7 @@ def run(cx, out):
     out.rule('R07.1', 'all overridden output methods of an impl that produce bytes themselves have identical terms; >= 1 such source; encoded_size not overridden')
     out.rule('R07.2', 'trait defaults keep their mutual definition')
     out.rule('R07.3', 'Output impls append all given bytes; push_byte == write(&[b])')
+    out.rule('R07.5', 'Joiner::and and KeyedVec::to_keyed_vec pass on the whole using_encoded slice on every path')
     out.rule('R07.4', 'bulk arms = one write of the whole reinterpreted slice; fallback iterates all items (with C01 R01.3)')
     out.rule('R01.3', 'TYPE_INFO is overridden by exactly the 12 primitives with matching variants (which types may take the bulk path)')
     out.rule('R05.3', 'no Encode impl leaves all three mutually defined default methods in place')
@@ -264,6 +315,7 @@ def run(cx, out):
         out.floor('R07.1', 'impls overriding more than one output method [%s]' % cfg, n_multi, 21)
         check_defaults(out, facts)
         check_sinks(out, facts)
+        check_aux_entry_points(out, facts)
         check_bulk(out, facts)
         # the fake-specialisation table decides which types take the bulk path (shared with C01 R01.3)
         from . import c01
